@@ -34,6 +34,9 @@ pub struct Report {
     pub histories: u64,
     /// how cases are generated and what makes one distinct / non-trivial
     pub rule: String,
+    /// violations are flushed here as soon as they are recorded, so that a shard that is killed
+    /// (OOM, watchdog) does not take its witnesses with it
+    pub partial_path: Option<String>,
 }
 
 impl Report {
@@ -56,6 +59,7 @@ impl Report {
             max_violations: 40,
             histories: 0,
             rule: String::new(),
+            partial_path: None,
         }
     }
     pub fn begin_history(&mut self, hist: u64) {
@@ -117,6 +121,9 @@ impl Report {
             step: self.trace.len(),
             trace: self.trace[start..].to_vec(),
         });
+        if let Some(p) = &self.partial_path {
+            let _ = std::fs::write(p, serde_json::to_string(&self.to_json(0.0)).unwrap_or_default());
+        }
     }
     /// Monitor assertion: counts the assertion, records a violation when false.
     pub fn check(&mut self, monitor: &str, ok: bool, signature: &str, detail: impl FnOnce() -> String) -> bool {
